@@ -31,7 +31,7 @@ def scenario_factory(nops, modes, planted=None, max_restarts=2, ops=None, prune=
         rd = new_reader()
         sizes = []; nwritten = 0
         nxt = 0                 # index of the next record this incarnation will deliver (model)
-        saved = 0               # model: next-record index of the last successful save
+        saved = {0}             # model: next-record indices the head may hold (last successful save; both candidates after an interrupted save)
         seen = set(); restarts = 0; first_after_restart = None; allowed_after_restart = None
         def removed():
             # records that retention pruned from the disk (content of every file the writer unlinked)
@@ -79,30 +79,33 @@ def scenario_factory(nops, modes, planted=None, max_restarts=2, ops=None, prune=
                 deliver(res)
             elif op == 'save':
                 if nxt is None: continue
-                rd.write_head(); saved = nxt; e.observed('save')
+                rd.write_head(); saved = {nxt}; e.observed('save')
             elif op == 'save_crash':
                 if nxt is None or restarts >= max_restarts: continue
-                j = e.choice(f'crash_at{step}', 3)                 # before: create tmp / write / rename
+                # crash instead of the j-th file-system mutation of this save.  Today a save has three (create temp, write, rename); five are offered so that a
+                # step added to the save is a crash point too.  If the save has fewer than j+1 mutations it simply completes (= a successful save).
+                j = e.choice(f'crash_at{step}', 5)
                 fs.crash_at = fs.nmut + j
-                fs.crash_partial = e.choice(f'partial{step}', 3) * 7 if j == 1 else 0   # torn tmp content: 0, 7 or 14 bytes
+                fs.crash_partial = lambda: e.choice(f'partial{step}', 3) * 7          # torn temp content: 0, 7 or 14 bytes reached the file
                 try:
-                    rd.write_head()
-                    e.fail('harness', 'crash not injected', {'kind': 'harness'})
+                    rd.write_head(); crashed = False
                 except Crash:
-                    pass
-                fs.crash_at = None
-                old_saved, new_saved = saved, nxt
+                    crashed = True
+                fs.crash_at = None; fs.crash_partial = None
+                if not crashed:
+                    if j < 2: e.fail('harness', 'crash not injected', {'kind': 'harness'})
+                    saved = {nxt}; e.observed('save'); continue
                 e.observed(f'crash{j}')
                 if planted: e.fail('planted', 'twin', {'kind': 'planted'})
-                restart({old_saved, new_saved} if j >= 3 else {old_saved})   # rename is atomic: before it the old head is in place
-                saved = old_saved
+                saved = saved | {nxt}            # the property: restart from either the previously saved or the newly saved position, never from another one
+                restart(set(saved))
             elif op == 'crash_restart':
                 if restarts >= max_restarts: continue
-                restart({saved})
+                restart(set(saved))
             elif op == 'close_restart':
                 if nxt is None or restarts >= max_restarts: continue
-                rd.close(); saved = nxt
-                restart({saved})
+                rd.close(); saved = {nxt}
+                restart(set(saved))
         # final drain by the last incarnation
         nones = 0
         for _ in range(2 * nwritten + 6):
@@ -130,7 +133,7 @@ def harnesses(tier):
     assume = ['rename is atomic and a crash loses no completed file-system operation (process crash, not power loss)', 'no pruning/deletion in this harness (total_size large)',
               'timestamps exact microseconds']
     hs = [Harness('c14.head_crash', scenario_factory(5, ['txt'] if q else ['txt', 'bin']), twin=scenario_factory(4, ['txt'], planted=True),
-                    bounds={'operations': 5, 'modes': 'txt' if q else 'txt, bin', 'op kinds': 'write read save save-with-crash(create/write/rename, torn tmp 0/7/14 bytes) crash-restart close-restart',
+                    bounds={'operations': 5, 'modes': 'txt' if q else 'txt, bin', 'op kinds': 'write read save save-with-crash(instead of any of the first 5 file-system mutations of the save, torn temp content 0/7/14 bytes) crash-restart close-restart',
                             'restarts': '<=2', 'file_size': 'unbounded Int >= 1', 'timestamps': 'unbounded Int'},
                     functions=fn, stubs=stubs, assumptions=assume, budget_s=900)]
     assume_p = [a for a in assume if 'no pruning' not in a] + ['retention pruning by the writer (total_size symbolic): a record in a pruned file is no longer "on disk"']
